@@ -9,7 +9,8 @@ CFG = dict(
     n=dict(quick=160, thorough=8000),
     rule="clusters of 8-40 identities per case run through the real name builders (GetLengthLimitedID directly with "
          "arbitrary prefix/limit, PolicyID.ID, Policy/Profile/EndpointChainName, PolicyGroup.ChainName, MakeUniqueID, "
-         "NameForMainIPSet/NameForTempIPSet): suffixes at limit-1/limit/limit+1, starting with the marker '_', the text "
+         "NameForMainIPSet/NameForTempIPSet, nftables LegalizeSetName, NFLOG maybeHash/CalculateNFLOGPrefixStr, VethNameForWorkload, "
+         "vmipam.CreateVMHandleID): suffixes at limit-1/limit/limit+1, starting with the marker '_', the text "
          "a shortened name turns into used as an identity itself, long names differing only in the tail, one text pushed "
          "through every chain family, v4/v6 and main/temp sets; plus a malformed stream (names with '/', unknown kinds, "
          "empty names, over-long fixed set IDs). non-trivial = at least one name in the case was hashed/truncated and the "
@@ -17,10 +18,13 @@ CFG = dict(
     trusted=["Coq 8.16.1 kernel + vm_compute",
              "hand-written model coq/theories/C37/Model.v tied to the Go code by this correspondence run",
              "Go driver harness/C37 (overlay build, tag verif); digests in the case table are computed by the driver with "
-             "crypto/sha256, crypto/sha3 and passed to the model as data"],
+             "crypto/sha256, crypto/sha3, crypto/sha1 and passed to the model as data"],
     assumptions=["the three hashes are Section variables producing base64url text; theorems are stated modulo equality of "
                  "truncated digests of different inputs",
                  "strings are byte lists; Go int is 64-bit; uint is 64-bit",
+                 "SHA-224 base64url text is 38 characters long and contains no ':' (hypotheses of the global theorem)",
+                 "nftables set names: fixed IDs without ':'; NFLOG rule prefixes: ASCII-letter action/owner/direction, index < 2^63; veth: namespace "
+                 "without '.'; VM handle: non-empty dot-free network name of at most 60 bytes, namespace without '.'",
                  "domain of the 'apart' clause: non-empty suffix/profile/interface names, policy kinds among the 7 known kinds, "
                  "no '/' or newline in policy names/namespaces, fixed IP set IDs of at most 25 bytes, MakeUniqueID tags of at most 9 bytes without ':'"],
 )
